@@ -306,3 +306,826 @@ func (p *Prog) declaredMethod(pkg, typ, name string) *ssa.Function {
 	}
 	return nil
 }
+
+// ---------------------------------------------------------------------------------------------
+// Inlined paths: acyclic entry→return paths of a function in which calls to selected repository
+// helpers are expanded in place. Values are read in the context of an activation: a parameter of
+// an inlined helper resolves to the argument at its call site, the result of an inlined call to
+// the value returned on this path, a phi to the edge taken. Rules written on these paths follow
+// an object, a copy or a fact through helper extraction without any per-helper knowledge.
+
+// icall is one activation on a path.
+type icall struct {
+	id      int
+	fn      *ssa.Function
+	site    *ssa.Call // call instruction in the parent activation (nil for the root)
+	parent  *icall
+	blocks  []*ssa.BasicBlock // blocks executed by this activation, in order
+	ret     *ssa.Return       // return reached (nil while running / when the path ends inside)
+	sub     map[*ssa.Call]*icall
+	visited map[*ssa.BasicBlock]bool
+}
+
+type ievent struct {
+	c  *icall
+	in ssa.Instruction
+}
+
+type ibranch struct {
+	c    *icall
+	cond ssa.Value // as written; resolve with the activation
+	pol  bool
+	at   int // number of events executed before the branch
+}
+
+type ipath struct {
+	root     *icall
+	events   []ievent
+	branches []ibranch
+	ret      *ssa.Return
+}
+
+type ienum struct {
+	inline   func(callee *ssa.Function) bool
+	cap      int
+	maxDepth int
+	out      []*ipath
+	over     bool
+	events   []ievent
+	branches []ibranch
+	keys     []struct {
+		k   string
+		pol bool
+	}
+	nextID int
+	root   *icall
+}
+
+// enumIPaths enumerates the inlined paths of fn. ok=false when the cap is exceeded.
+func enumIPaths(fn *ssa.Function, inline func(callee *ssa.Function) bool, cap int) ([]*ipath, bool) {
+	if len(fn.Blocks) == 0 {
+		return nil, true
+	}
+	e := &ienum{inline: inline, cap: cap, maxDepth: 4}
+	e.root = e.newCall(fn, nil, nil)
+	e.enter(e.root, fn.Blocks[0])
+	return e.out, !e.over
+}
+
+func (e *ienum) newCall(fn *ssa.Function, site *ssa.Call, parent *icall) *icall {
+	e.nextID++
+	return &icall{id: e.nextID, fn: fn, site: site, parent: parent, sub: map[*ssa.Call]*icall{}, visited: map[*ssa.BasicBlock]bool{}}
+}
+
+func (c *icall) depth() int {
+	d := 0
+	for x := c; x.parent != nil; x = x.parent {
+		d++
+	}
+	return d
+}
+
+func (c *icall) onStack(fn *ssa.Function) bool {
+	for x := c; x != nil; x = x.parent {
+		if x.fn == fn {
+			return true
+		}
+	}
+	return false
+}
+
+func (e *ienum) enter(act *icall, b *ssa.BasicBlock) {
+	if e.over || act.visited[b] {
+		return
+	}
+	act.visited[b] = true
+	act.blocks = append(act.blocks, b)
+	e.exec(act, b, 0)
+	act.blocks = act.blocks[:len(act.blocks)-1]
+	act.visited[b] = false
+}
+
+func (e *ienum) exec(act *icall, b *ssa.BasicBlock, i int) {
+	mark := len(e.events)
+	defer func() { e.events = e.events[:mark] }()
+	for ; i < len(b.Instrs); i++ {
+		if e.over {
+			return
+		}
+		in := b.Instrs[i]
+		switch x := in.(type) {
+		case *ssa.Phi, *ssa.DebugRef:
+			continue
+		case *ssa.Call:
+			e.events = append(e.events, ievent{act, in})
+			cal := staticCallee(&x.Call)
+			if cal != nil && len(cal.Blocks) > 0 && act.depth() < e.maxDepth && !act.onStack(cal) && e.inline(cal) {
+				child := e.newCall(cal, x, act)
+				act.sub[x] = child
+				e.enter(child, cal.Blocks[0]) // the continuation runs from the child's Return
+				delete(act.sub, x)
+				return
+			}
+		case *ssa.Return:
+			e.events = append(e.events, ievent{act, in})
+			if act.parent == nil {
+				e.emit(x)
+				return
+			}
+			act.ret = x
+			e.exec(act.parent, act.site.Block(), instrIndex(act.site)+1)
+			act.ret = nil
+			return
+		case *ssa.If:
+			if b.Succs[0] == b.Succs[1] {
+				e.enter(act, b.Succs[0])
+				return
+			}
+			for si, s := range b.Succs {
+				pol := si == 0
+				if cb, isC := iconstBool(act, x.Cond); isC {
+					if cb != pol {
+						continue
+					}
+					e.enter(act, s)
+					continue
+				}
+				k, kp := icondKey(act, x.Cond, pol)
+				contra := false
+				for _, kk := range e.keys {
+					if kk.k == k && kk.pol != kp {
+						contra = true
+					}
+				}
+				if contra {
+					continue
+				}
+				e.keys = append(e.keys, struct {
+					k   string
+					pol bool
+				}{k, kp})
+				e.branches = append(e.branches, ibranch{c: act, cond: x.Cond, pol: pol, at: len(e.events)})
+				e.enter(act, s)
+				e.branches = e.branches[:len(e.branches)-1]
+				e.keys = e.keys[:len(e.keys)-1]
+			}
+			return
+		case *ssa.Jump:
+			e.enter(act, b.Succs[0])
+			return
+		case *ssa.Panic:
+			return
+		default:
+			e.events = append(e.events, ievent{act, in})
+		}
+	}
+}
+
+func (e *ienum) emit(ret *ssa.Return) {
+	if len(e.out) >= e.cap {
+		e.over = true
+		return
+	}
+	m := map[*icall]*icall{}
+	var clone func(c *icall) *icall
+	clone = func(c *icall) *icall {
+		if c == nil {
+			return nil
+		}
+		if n, ok := m[c]; ok {
+			return n
+		}
+		n := &icall{id: c.id, fn: c.fn, site: c.site, ret: c.ret, blocks: append([]*ssa.BasicBlock(nil), c.blocks...), sub: map[*ssa.Call]*icall{}}
+		m[c] = n
+		n.parent = clone(c.parent)
+		for k, s := range c.sub {
+			n.sub[k] = clone(s)
+		}
+		return n
+	}
+	p := &ipath{root: clone(e.root), ret: ret}
+	// activations that already returned are reachable through their parents' sub maps, which were
+	// still set when they returned; activations referenced only by events are cloned on demand.
+	for _, ev := range e.events {
+		p.events = append(p.events, ievent{clone(ev.c), ev.in})
+	}
+	for _, br := range e.branches {
+		p.branches = append(p.branches, ibranch{c: clone(br.c), cond: br.cond, pol: br.pol, at: br.at})
+	}
+	e.out = append(e.out, p)
+}
+
+// iresolve normalises a value in its activation: parameters of inlined helpers become the call
+// arguments, results of inlined calls the returned values, phis the edge taken on this path.
+func iresolve(c *icall, v ssa.Value) (*icall, ssa.Value) {
+	for i := 0; i < 64 && c != nil && v != nil; i++ {
+		switch x := v.(type) {
+		case *ssa.Parameter:
+			if c.parent == nil || c.site == nil {
+				return c, v
+			}
+			idx := paramIndex(x)
+			if idx < 0 || idx >= len(c.site.Call.Args) {
+				return c, v
+			}
+			c, v = c.parent, c.site.Call.Args[idx]
+		case *ssa.Call:
+			ch := c.sub[x]
+			if ch == nil || ch.ret == nil || len(ch.ret.Results) != 1 {
+				return c, v
+			}
+			c, v = ch, ch.ret.Results[0]
+		case *ssa.Extract:
+			call, ok := x.Tuple.(*ssa.Call)
+			if !ok {
+				return c, v
+			}
+			ch := c.sub[call]
+			if ch == nil || ch.ret == nil || x.Index >= len(ch.ret.Results) {
+				return c, v
+			}
+			c, v = ch, ch.ret.Results[x.Index]
+		case *ssa.Phi:
+			idx := -1
+			for j, b := range c.blocks {
+				if b == x.Block() {
+					idx = j
+				}
+			}
+			if idx <= 0 {
+				return c, v
+			}
+			pred := c.blocks[idx-1]
+			found := false
+			for j, pb := range x.Block().Preds {
+				if pb == pred {
+					v, found = x.Edges[j], true
+					break
+				}
+			}
+			if !found {
+				return c, v
+			}
+		default:
+			return c, v
+		}
+	}
+	return c, v
+}
+
+// iunwrap resolves and strips value-preserving conversions.
+func iunwrap(c *icall, v ssa.Value) (*icall, ssa.Value) {
+	for i := 0; i < 64; i++ {
+		c, v = iresolve(c, v)
+		switch x := v.(type) {
+		case *ssa.ChangeType:
+			v = x.X
+		case *ssa.Convert:
+			v = x.X
+		case *ssa.MakeInterface:
+			v = x.X
+		case *ssa.ChangeInterface:
+			v = x.X
+		default:
+			return c, v
+		}
+	}
+	return c, v
+}
+
+// iaccess is accessPath on a path: root activation, root value and the field chain.
+func iaccess(c *icall, v ssa.Value) (*icall, ssa.Value, []string) {
+	var rev []string
+	for i := 0; i < 128; i++ {
+		c, v = iunwrap(c, v)
+		switch x := v.(type) {
+		case *ssa.UnOp:
+			if x.Op == token.MUL {
+				v = x.X
+				continue
+			}
+		case *ssa.FieldAddr:
+			rev = append(rev, fieldName(x))
+			v = x.X
+			continue
+		case *ssa.Field:
+			rev = append(rev, fieldName(x))
+			v = x.X
+			continue
+		}
+		break
+	}
+	for i, j := 0, len(rev)-1; i < j; i, j = i+1, j-1 {
+		rev[i], rev[j] = rev[j], rev[i]
+	}
+	return c, v, rev
+}
+
+// iconstBool decides a branch condition on the path when it is a constant after resolution:
+// a boolean constant, a negation of one, or a comparison with nil of a value that resolves to nil
+// or to a value that is certainly not nil (an allocation, the result of errors.New / fmt.Errorf),
+// or a comparison of two constants. This prunes the caller's `if err != nil` after an inlined
+// helper returned on a known branch.
+func iconstBool(c *icall, v ssa.Value) (bool, bool) {
+	neg := false
+	for i := 0; i < 16; i++ {
+		c, v = iresolve(c, v)
+		u, ok := v.(*ssa.UnOp)
+		if !ok || u.Op != token.NOT {
+			break
+		}
+		v, neg = u.X, !neg
+	}
+	if b, ok := constBool(v); ok {
+		return b != neg, true
+	}
+	bo, ok := v.(*ssa.BinOp)
+	if !ok || (bo.Op != token.EQL && bo.Op != token.NEQ) {
+		return false, false
+	}
+	if bo.Op == token.NEQ {
+		neg = !neg
+	}
+	_, l := iunwrap(c, bo.X)
+	_, r := iunwrap(c, bo.Y)
+	nilness := func(x ssa.Value) int { // 1 nil, -1 certainly not nil, 0 unknown
+		if isNilConst(x) {
+			return 1
+		}
+		switch y := x.(type) {
+		case *ssa.Alloc, *ssa.MakeMap, *ssa.MakeSlice, *ssa.MakeClosure, *ssa.FieldAddr, *ssa.IndexAddr:
+			return -1
+		case *ssa.Call:
+			switch calleeName(&y.Call) {
+			case "errors.New", "fmt.Errorf":
+				return -1
+			}
+		}
+		return 0
+	}
+	if isNilConst(l) || isNilConst(r) {
+		a, b := nilness(l), nilness(r)
+		if a != 0 && b != 0 {
+			return (a == b) != neg, true
+		}
+		return false, false
+	}
+	if lc, ok1 := l.(*ssa.Const); ok1 {
+		if rc, ok2 := r.(*ssa.Const); ok2 && lc.Value != nil && rc.Value != nil && !lc.IsNil() && !rc.IsNil() {
+			return (lc.Value.ExactString() == rc.Value.ExactString()) != neg, true
+		}
+	}
+	return false, false
+}
+
+// ikey is a structural key of a value on a path (activation-aware counterpart of keyer.key).
+func ikey(c *icall, v ssa.Value, d int) string {
+	if v == nil {
+		return "<nil>"
+	}
+	if d > 24 {
+		return v.Name()
+	}
+	c, v = iresolve(c, v)
+	switch x := v.(type) {
+	case *ssa.Parameter:
+		return fmt.Sprintf("p%d:%s", c.id, x.Name())
+	case *ssa.FreeVar:
+		return "fv:" + x.Name()
+	case *ssa.Global:
+		return "g:" + x.Pkg.Pkg.Path() + "." + x.Name()
+	case *ssa.Function:
+		return "fn:" + funcName(x)
+	case *ssa.Const:
+		if x.IsNil() {
+			return "nil"
+		}
+		if x.Value == nil {
+			return "zero"
+		}
+		return "c:" + x.Value.ExactString()
+	case *ssa.Call:
+		var args []string
+		if x.Call.IsInvoke() {
+			args = append(args, ikey(c, x.Call.Value, d+1))
+		}
+		for _, a := range x.Call.Args {
+			args = append(args, ikey(c, a, d+1))
+		}
+		// calls are keyed per instruction and activation: two calls may return different values
+		return fmt.Sprintf("%s@%d:%p(%s)", calleeName(&x.Call), c.id, x, strings.Join(args, ","))
+	case *ssa.Extract:
+		return ikey(c, x.Tuple, d+1) + "#" + fmt.Sprint(x.Index)
+	case *ssa.FieldAddr:
+		return "&" + ikey(c, x.X, d+1) + "." + fieldName(x)
+	case *ssa.Field:
+		return ikey(c, x.X, d+1) + "." + fieldName(x)
+	case *ssa.IndexAddr:
+		return "&" + ikey(c, x.X, d+1) + "[" + ikey(c, x.Index, d+1) + "]"
+	case *ssa.Index:
+		return ikey(c, x.X, d+1) + "[" + ikey(c, x.Index, d+1) + "]"
+	case *ssa.Lookup:
+		s := ikey(c, x.X, d+1) + "[" + ikey(c, x.Index, d+1) + "]"
+		if x.CommaOk {
+			s += ",ok"
+		}
+		return s
+	case *ssa.UnOp:
+		switch x.Op {
+		case token.MUL:
+			a := ikey(c, x.X, d+1)
+			if strings.HasPrefix(a, "&") {
+				return a[1:]
+			}
+			return "*" + a
+		case token.NOT:
+			return "!" + ikey(c, x.X, d+1)
+		}
+		return x.Op.String() + ikey(c, x.X, d+1)
+	case *ssa.BinOp:
+		a, b := ikey(c, x.X, d+1), ikey(c, x.Y, d+1)
+		if (x.Op == token.EQL || x.Op == token.NEQ || x.Op == token.ADD || x.Op == token.MUL) && b < a {
+			a, b = b, a
+		}
+		return "(" + a + x.Op.String() + b + ")"
+	case *ssa.Phi:
+		return fmt.Sprintf("phi%d:%s@b%d", c.id, x.Comment, x.Block().Index)
+	case *ssa.Alloc:
+		return fmt.Sprintf("alloc%d:%p", c.id, x)
+	case *ssa.ChangeType:
+		return ikey(c, x.X, d+1)
+	case *ssa.Convert:
+		return ikey(c, x.X, d+1)
+	case *ssa.MakeInterface:
+		return ikey(c, x.X, d+1)
+	case *ssa.ChangeInterface:
+		return ikey(c, x.X, d+1)
+	}
+	return fmt.Sprintf("%T%d:%p", v, c.id, v)
+}
+
+// icondKey normalises a branch condition: leading negations stripped, != turned into == with
+// flipped polarity.
+func icondKey(c *icall, cond ssa.Value, pol bool) (string, bool) {
+	for i := 0; i < 16; i++ {
+		cc, v := iresolve(c, cond)
+		if u, ok := v.(*ssa.UnOp); ok && u.Op == token.NOT {
+			c, cond, pol = cc, u.X, !pol
+			continue
+		}
+		if b, ok := v.(*ssa.BinOp); ok && (b.Op == token.EQL || b.Op == token.NEQ) {
+			x, y := ikey(cc, b.X, 0), ikey(cc, b.Y, 0)
+			if y < x {
+				x, y = y, x
+			}
+			if b.Op == token.NEQ {
+				pol = !pol
+			}
+			return "(" + x + "==" + y + ")", pol
+		}
+		return ikey(cc, v, 0), pol
+	}
+	return ikey(c, cond, 0), pol
+}
+
+// ieq decomposes a branch into an equality: the two operands (with their activation) and whether
+// they are equal on this edge. ok=false when the condition is not an ==/!= comparison.
+func ieq(br ibranch) (c *icall, x, y ssa.Value, equal bool, ok bool) {
+	c, v, pol := br.c, br.cond, br.pol
+	for i := 0; i < 16; i++ {
+		cc, vv := iresolve(c, v)
+		if u, isU := vv.(*ssa.UnOp); isU && u.Op == token.NOT {
+			c, v, pol = cc, u.X, !pol
+			continue
+		}
+		b, isB := vv.(*ssa.BinOp)
+		if !isB || (b.Op != token.EQL && b.Op != token.NEQ) {
+			return nil, nil, nil, false, false
+		}
+		if b.Op == token.NEQ {
+			pol = !pol
+		}
+		return cc, b.X, b.Y, pol, true
+	}
+	return nil, nil, nil, false, false
+}
+
+// ibool returns the condition of a branch with negations stripped: the activation, the value
+// and its truth value on the edge.
+func ibool(br ibranch) (*icall, ssa.Value, bool) {
+	c, v, pol := br.c, br.cond, br.pol
+	for i := 0; i < 16; i++ {
+		cc, vv := iresolve(c, v)
+		if u, isU := vv.(*ssa.UnOp); isU && u.Op == token.NOT {
+			c, v, pol = cc, u.X, !pol
+			continue
+		}
+		return cc, vv, pol
+	}
+	return c, v, pol
+}
+
+func iisNil(c *icall, v ssa.Value) bool {
+	_, vv := iunwrap(c, v)
+	return isNilConst(vv)
+}
+
+func iconstString(c *icall, v ssa.Value) (string, bool) {
+	_, vv := iunwrap(c, v)
+	return constString(vv)
+}
+
+// eventIndex returns the position of instruction in (executed by any activation) on the path,
+// -1 if it is not executed. The first occurrence is returned.
+func (p *ipath) eventIndex(in ssa.Instruction) int {
+	for i, ev := range p.events {
+		if ev.in == in {
+			return i
+		}
+	}
+	return -1
+}
+
+// samePkgInliner inlines the unexported repository functions of the package of root (helpers
+// extracted next to a function), except those in skip.
+func samePkgInliner(prog *Prog, root *ssa.Function, skip map[*ssa.Function]bool) func(*ssa.Function) bool {
+	pkgOf := func(f *ssa.Function) string {
+		for f.Parent() != nil {
+			f = f.Parent()
+		}
+		if f.Pkg == nil {
+			return ""
+		}
+		return f.Pkg.Pkg.Path()
+	}
+	rp := pkgOf(root)
+	return func(cal *ssa.Function) bool {
+		// exported functions are the API the properties name (readers, predicates): they stay calls
+		return !skip[cal] && prog.IsRuleSite(cal) && cal.Synthetic == "" && pkgOf(cal) == rp && !token.IsExported(cal.Name())
+	}
+}
+
+// roOpts configures readOnlyValue2.
+type roOpts struct {
+	allowCall func(ssa.CallInstruction, ssa.Value) bool
+	follow    func(*ssa.Function) bool                  // callees whose parameter is checked instead of rejecting the call
+	callers   func(*ssa.Function) []ssa.CallInstruction // call sites whose result is checked when the value is returned
+	seen      map[ssa.Value]bool
+}
+
+// readOnlyValue2 is readOnlyValue that follows the value into repository helpers (parameter of the
+// callee) and out of them (result at the call sites).
+func readOnlyValue2(v ssa.Value, o *roOpts, depth int) (ok bool, why string) {
+	if depth > 16 {
+		return false, "use chain too deep"
+	}
+	if o.seen[v] {
+		return true, ""
+	}
+	o.seen[v] = true
+	for _, r := range refs(v) {
+		switch x := r.(type) {
+		case *ssa.DebugRef, *ssa.BinOp, *ssa.If, *ssa.Range:
+		case *ssa.Return:
+			if !isRefType(v.Type()) {
+				continue
+			}
+			if o.callers == nil {
+				return false, "returned"
+			}
+			idx := -1
+			for i, res := range x.Results {
+				if res == v {
+					idx = i
+				}
+			}
+			for _, cs := range o.callers(x.Parent()) {
+				cv, isV := cs.(*ssa.Call)
+				if !isV {
+					return false, "returned to a go/defer call"
+				}
+				if len(x.Results) == 1 {
+					if ok, why := readOnlyValue2(cv, o, depth+1); !ok {
+						return false, why
+					}
+					continue
+				}
+				for _, r2 := range refs(cv) {
+					if ex, isEx := r2.(*ssa.Extract); isEx && ex.Index == idx {
+						if ok, why := readOnlyValue2(ex, o, depth+1); !ok {
+							return false, why
+						}
+					}
+				}
+			}
+		case *ssa.UnOp:
+			if x.Op == token.MUL {
+				if ok, why := readOnlyValue2(x, o, depth+1); !ok {
+					return false, why
+				}
+			}
+		case *ssa.FieldAddr, *ssa.Field, *ssa.IndexAddr, *ssa.Index, *ssa.Extract:
+			if ok, why := readOnlyValue2(x.(ssa.Value), o, depth+1); !ok {
+				return false, why
+			}
+		case *ssa.Lookup:
+			if x.X != v {
+				continue
+			}
+			if ok, why := readOnlyValue2(x, o, depth+1); !ok {
+				return false, why
+			}
+		case *ssa.Phi:
+			if isRefType(v.Type()) {
+				if ok, why := readOnlyValue2(x, o, depth+1); !ok {
+					return false, why
+				}
+			}
+		case *ssa.Store:
+			if x.Addr == v {
+				return false, fmt.Sprintf("stored through (line %d)", x.Parent().Prog.Fset.Position(instrPos(x)).Line)
+			}
+			if isRefType(v.Type()) {
+				return false, "stored into another location"
+			}
+		case *ssa.MapUpdate:
+			if x.Map == v {
+				return false, "map updated"
+			}
+			if isRefType(v.Type()) {
+				return false, "stored into a map"
+			}
+		case *ssa.MakeInterface, *ssa.ChangeType, *ssa.Convert, *ssa.ChangeInterface, *ssa.Slice:
+			if !isRefType(v.Type()) {
+				continue
+			}
+			if ok, why := readOnlyValue2(x.(ssa.Value), o, depth+1); !ok {
+				return false, why
+			}
+		case ssa.CallInstruction:
+			c := x.Common()
+			if b, isB := c.Value.(*ssa.Builtin); isB && (b.Name() == "len" || b.Name() == "cap") {
+				continue
+			}
+			if !isRefType(v.Type()) {
+				continue
+			}
+			if o.allowCall != nil && o.allowCall(x, v) {
+				continue
+			}
+			if cal := staticCallee(c); cal != nil && o.follow != nil && o.follow(cal) && len(cal.Blocks) > 0 {
+				bad := ""
+				for i, a := range c.Args {
+					if a == v && i < len(cal.Params) {
+						if ok, why := readOnlyValue2(cal.Params[i], o, depth+1); !ok {
+							bad = why + " (in " + shortFunc(cal) + ")"
+						}
+					}
+				}
+				if bad != "" {
+					return false, bad
+				}
+				continue
+			}
+			return false, "passed to " + calleeName(c)
+		default:
+			if isRefType(v.Type()) {
+				return false, "used by " + r.String()
+			}
+		}
+	}
+	return true, ""
+}
+
+// aliasClosure returns the SSA values that denote the object held by start when it is handed
+// to repository helpers (the callee's parameter) or returned by them (the call result at every
+// call site), through phis and value-preserving conversions of non-interface type.
+func aliasClosure(start ssa.Value, follow func(*ssa.Function) bool, callers func(*ssa.Function) []ssa.CallInstruction) map[ssa.Value]bool {
+	out := map[ssa.Value]bool{}
+	var add func(v ssa.Value, d int)
+	add = func(v ssa.Value, d int) {
+		if v == nil || out[v] || d > 12 {
+			return
+		}
+		out[v] = true
+		for _, rr := range refs(v) {
+			switch x := rr.(type) {
+			case *ssa.Phi:
+				add(x, d+1)
+			case *ssa.ChangeType:
+				add(x, d+1)
+			case *ssa.Return:
+				idx := -1
+				for i, res := range x.Results {
+					if res == v {
+						idx = i
+					}
+				}
+				if callers == nil {
+					continue
+				}
+				for _, cs := range callers(x.Parent()) {
+					cv, isV := cs.(*ssa.Call)
+					if !isV {
+						continue
+					}
+					if len(x.Results) == 1 {
+						add(cv, d+1)
+						continue
+					}
+					for _, r2 := range refs(cv) {
+						if ex, isEx := r2.(*ssa.Extract); isEx && ex.Index == idx {
+							add(ex, d+1)
+						}
+					}
+				}
+			case ssa.CallInstruction:
+				cal := staticCallee(x.Common())
+				if cal == nil || follow == nil || !follow(cal) {
+					continue
+				}
+				for i, a := range x.Common().Args {
+					if a == v && i < len(cal.Params) {
+						add(cal.Params[i], d+1)
+					}
+				}
+			}
+		}
+	}
+	add(start, 0)
+	return out
+}
+
+// ifield resolves a read of a struct field to the value stored into that field when the struct is
+// a composite literal on this path: built locally, copied into a local, or returned by an inlined
+// helper. ok=false when v is not such a read.
+func ifield(c *icall, v ssa.Value) (*icall, ssa.Value, bool) {
+	cc, vv := iunwrap(c, v)
+	f := ""
+	var ac *icall
+	var al *ssa.Alloc // struct held in a local cell
+	var cur ssa.Value // or a struct value
+	switch y := vv.(type) {
+	case *ssa.Field:
+		cur, ac, f = y.X, cc, fieldName(y)
+	case *ssa.UnOp:
+		fa, ok := y.X.(*ssa.FieldAddr)
+		if y.Op != token.MUL || !ok {
+			return nil, nil, false
+		}
+		f = fieldName(fa)
+		var av ssa.Value
+		ac, av = iunwrap(cc, fa.X)
+		a2, isAl := av.(*ssa.Alloc)
+		if !isAl {
+			return nil, nil, false
+		}
+		al = a2
+	default:
+		return nil, nil, false
+	}
+	for i := 0; i < 8; i++ {
+		if al == nil {
+			bc, bv := iunwrap(ac, cur)
+			ld, isLd := bv.(*ssa.UnOp)
+			if !isLd || ld.Op != token.MUL {
+				return nil, nil, false
+			}
+			xc, xv := iunwrap(bc, ld.X)
+			a2, isAl := xv.(*ssa.Alloc)
+			if !isAl {
+				return nil, nil, false
+			}
+			ac, al = xc, a2
+		}
+		if fs := fieldStores(al, f); len(fs) == 1 {
+			return ac, fs[0], true
+		} else if len(fs) > 1 {
+			return nil, nil, false
+		}
+		var whole []ssa.Value
+		for _, rr := range refs(al) {
+			if st, isSt := rr.(*ssa.Store); isSt && st.Addr == ssa.Value(al) {
+				whole = append(whole, st.Val)
+			}
+		}
+		if len(whole) != 1 {
+			return nil, nil, false
+		}
+		cur, al = whole[0], nil
+	}
+	return nil, nil, false
+}
+
+// ideep resolves v through parameters, results, phis, conversions and struct fields.
+func ideep(c *icall, v ssa.Value) (*icall, ssa.Value) {
+	for i := 0; i < 16; i++ {
+		c, v = iunwrap(c, v)
+		fc, fv, ok := ifield(c, v)
+		if !ok {
+			return c, v
+		}
+		c, v = fc, fv
+	}
+	return c, v
+}
